@@ -6,6 +6,18 @@ def rapid(sub, quick, thorough, shards=8, **kw):
     return d
 
 PROPS = {
+    "C17": {"jobs": [
+        rapid("C17a", 30000, 200000, shards=4),
+        rapid("C17b", 3000, 20000, shards=4),
+        {"sub": "C17x", "kind": "test", "run": "TestC17Exhaustive", "tiers": ["quick"], "env": {"VERIF_C17_SLICE": "3"}},
+        {"sub": "C17x", "kind": "test", "run": "TestC17Exhaustive", "tiers": ["thorough"]},
+    ]},
+    "C18": {"jobs": [
+        rapid("C18a", 15000, 100000, shards=4),
+        rapid("C18b", 6000, 40000, shards=6),
+        rapid("C18c", 4000, 20000, shards=6),
+        {"sub": "C18x", "kind": "test", "run": "TestC18Exhaustive"},
+    ]},
     "C08": {"jobs": [
         rapid("C08a", 1500, 6000, shrinktime="15s"),
     ]},
